@@ -46,7 +46,7 @@ def gen_script(rng, pv):
         steps.append(('comp', rng.choice([0, 1, 64, 256, 2 ** 31 - 1])))
     if pv >= 385:
         for _ in range(rng.choice([0, 0, 1, 2, 4])):
-            steps.append(('plugin', rng.choice([7, 7, 8, 0, rng.randrange(2 ** 31)]), rng.choice(['minecraft:brand', 'x:y']),          # (message ids may repeat: every request is answered)
+            steps.append(('plugin', rng.choice([7, 7, 8, 0, rng.randrange(2 ** 31), 2 ** 31 - 1, 2 ** 31, 2 ** 32 - 1, rng.randrange(2 ** 31, 2 ** 32)]), rng.choice(['minecraft:brand', 'x:y']),          # (message ids may repeat: every request is answered)
                           rng.choice([b'EXACT', bytes(rng.randrange(256) for _ in range(rng.randrange(0, 20)))])))
     rng.shuffle(steps)
     if rng.random() < 0.7:
